@@ -2,7 +2,7 @@
    list so a false obligation names the offending (table, check, opcode). *)
 From Xdis Require Import Base.Prelude Base.OpTable Model.Magic Gen.Opcodes Gen.RefOpcodes.
 From Coq Require Import Ascii.
-Open Scope string_scope.
+Local Open Scope string_scope.
 Infix "+++" := (@app _) (at level 60, right associativity).
 
 Fixpoint fix_name (s : string) : string :=
